@@ -12,7 +12,7 @@
 """
 import random
 
-from ..core import B, outcome, hash_prim
+from ..core import toy_guard, B, outcome, hash_prim
 from ..toycurve import toy
 from .c01 import sigs_cfg, dec
 from .c03 import le, N256, P256
@@ -179,7 +179,17 @@ def run(ctx):
     ctx.assumptions = ["points dG, kG come from the library's scalar multiplication (validated by C03); a candidate whose R is not the abscissa of the "
                        "known nonce point, or whose key is not ours, is taken to be invalid (discrete-log assumption)",
                        "tagged SHA256 rows are certified with hashlib; in the toy instances the hashes are the toy family of Sigs.tla"]
-    if ctx.want("toy"):
+    if ctx.want("real"):
+        cases = real_cases(ctx, rng, 8 if q else 80, 1 if q else 6)
+        byid = {c["id"]: c for c in cases}
+        send = [{k: v for k, v in c.items() if k not in ("name", "raw")} for c in cases]
+        bad = ctx.validate("curve/SigCases.tla", send, "SigCases.cfg", timeout=7200, per_shard_min=20)
+        for cid, why in bad.items():
+            c = byid[cid]
+            ctx.violation("real-%s:%s:%s" % (c["kind"], why, c.get("name", "")), "secp256k1 %s case %s: %s %s" % (c["kind"], cid, why, c.get("raw", "")),
+                          {"kind": "case", "case": {k: v for k, v in c.items() if k != "hr"}})
+        ctx.sample({k: v for k, v in cases[1].items() if k in ("id", "kind", "name", "accepted")})
+    def _toy_part():
         curves = TOY[:2] if q else TOY
         jobs = []
         for (p, a, b) in curves:
@@ -193,13 +203,5 @@ def run(ctx):
         replay_toy(ctx, tabs)
         ctx.exhaustive.append("toy groups %s with toy hashes: every secret x 4 messages x 2 aux signed; every (x-only key candidate 0..p+1, R 0..p+1, s 0..n+1) verified" % curves)
         ctx.sample({"toy_sign_row": tabs[0][2]["rows"][3] if tabs[0][2] else None})
-    if ctx.want("real"):
-        cases = real_cases(ctx, rng, 8 if q else 80, 1 if q else 6)
-        byid = {c["id"]: c for c in cases}
-        send = [{k: v for k, v in c.items() if k not in ("name", "raw")} for c in cases]
-        bad = ctx.validate("curve/SigCases.tla", send, "SigCases.cfg", timeout=7200, per_shard_min=20)
-        for cid, why in bad.items():
-            c = byid[cid]
-            ctx.violation("real-%s:%s:%s" % (c["kind"], why, c.get("name", "")), "secp256k1 %s case %s: %s %s" % (c["kind"], cid, why, c.get("raw", "")),
-                          {"kind": "case", "case": {k: v for k, v in c.items() if k != "hr"}})
-        ctx.sample({k: v for k, v in cases[1].items() if k in ("id", "kind", "name", "accepted")})
+    if ctx.want("toy"):
+        toy_guard(ctx, _toy_part)
